@@ -185,6 +185,10 @@ class FileCache:
         None
         """
         with self.file_futures_lock:
+            info = self.file_futures.get(file_name)
+            if info is not None and info[0] and not info[-1].done():
+                # a write of the file is in flight: the entry belongs to that write (it holds no memory yet)
+                return
             self.file_access_times = [(t, fn) for t, fn in self.file_access_times if fn != file_name]
             heapq.heapify(self.file_access_times)
             self._unload_file(file_name)
